@@ -541,7 +541,7 @@ theorem header_accept_sound (req : Request) (size : Params → Option Nat) (boun
     p.fixed.modelType = req.modelType ∧ p.fixed.searchVersion = req.searchVersion ∧
     checkCountsMinOrder ≤ p.fixed.order ∧ 1 ≤ p.fixed.order ∧ p.fixed.order ≤ maxOrder ∧
     readCounts p.fixed.order (file.drop (sizeofSanity + sizeofFixed)) = some p.counts ∧
-    floatLtOne p.fixed.multBits = false ∧
+    floatNotGeOne p.fixed.multBits = false ∧
     (req.enumerate = true → p.fixed.hasVocab = true) ∧
     ∃ sz, size p = some sz ∧ headerSize p.fixed.order + sz ≤ file.length ∧
       (p.fixed.hasVocab = true → readWords file (headerSize p.fixed.order + sz) req.enumerate (bound p) = none) := by
@@ -593,7 +593,7 @@ theorem header_accept_sound (req : Request) (size : Params → Option Nat) (boun
                               intro he
                               simp only [he, Bool.true_and, Bool.not_eq_true', Bool.not_eq_false] at hen
                               exact hen
-                            have hm' : floatLtOne f.multBits = false := by simpa using hmult
+                            have hm' : floatNotGeOne f.multBits = false := by simpa using hmult
                             split at h
                             · rename_i hv
                               split at h
@@ -619,13 +619,13 @@ end-of-file when the file stops inside the counts), never `ok`, never undefined 
 theorem header_mismatch (req : Request) (size : Params → Option Nat) (bound : Params → Nat) (file : File) (f : Fixed)
     (hrec : recognize file = .header f)
     (hm : f.modelType ≠ req.modelType ∨ f.searchVersion ≠ req.searchVersion ∨ maxOrder < f.order ∨
-          f.order < checkCountsMinOrder ∨ floatLtOne f.multBits = true ∨
+          f.order < checkCountsMinOrder ∨ floatNotGeOne f.multBits = true ∨
           (req.enumerate = true ∧ f.hasVocab = false ∧ f.order ≠ 0 ∧ isNaN f.multBits = false)) :
     loadBinary req size bound file = .error .format ∨
     (readCounts f.order (file.drop (sizeofSanity + sizeofFixed)) = none ∧ loadBinary req size bound file = .error .eof) := by
   unfold loadBinary
   simp only [hrec]
-  by_cases h1 : floatLtOne f.multBits = true
+  by_cases h1 : floatNotGeOne f.multBits = true
   · simp [h1]
   · simp only [h1, Bool.false_eq_true, ↓reduceIte]
     by_cases h2 : (isNaN f.multBits && readHeaderRejectsNaN) = true
